@@ -30,6 +30,28 @@ CLAIMS = {
              "work constant is measured (steps per token on both sides), not proved; stack depth is a runtime measurement.",
         tech="Lean 4 proof: verified abstract-interpretation checker (total-correctness soundness theorem) + decide +kernel on the grammar",
         ref="DESIGN.md §7 C02"),
+    "C04": dict(
+        text="Specification = the grammar table REGENERATED on every run from /repo/syntax.md and the rule comments of grammar/*.rs "
+             "(translator, listed errata only) with a generic derivation relation Doc.Derives. Lean theorems: forward_partial (every "
+             "input whose token kinds are a program of the fragment Frag - all twelve statement forms and the full recursive value "
+             "grammar, restricted exactly at the listed deviations - parses with zero errors, connected to Grammar.parse with its "
+             "concrete fuel and a single root), frag_is_documented (every fragment program is a documented sentence, checked "
+             "against the regenerated table), errors_only_grow / after_error_has_error / expect_miss_reports / error_prims_report "
+             "(the reporting discipline for EVERY program of the parser DSL: an error once recorded stays, a missing required token "
+             "leaves at least one error), type_converse_partial (a clean run of the type parser consumed a derivable type), "
+             "full_forward_false and documented_sentences_rejected (machine-checked witnesses that the full forward statement is "
+             "false of the parser: the restrict-type deviations). Checks: parser model vs implementation on every generated text; "
+             "an Earley recogniser over the regenerated grammar (and over it patched by each listed deviation) classifies "
+             "sentences of the documented grammar, their single token deletions/duplications/transpositions and sampled "
+             "insertions/replacements; every disagreement not explained by a listed deviation is a violation; typed-accessor "
+             "reachability via a walker GENERATED from the asts! table (Rust, real accessors) vs the Lean AstWalk model; the 39 "
+             "LLVM files parse clean.",
+        note="Partial: the converse (non-sentence => error) is proved only as the reporting discipline plus the type-level "
+             "converse; outside that it is decided case by case by the recogniser (testing, labelled). 11 deviations of the parser "
+             "from the documented grammar are known findings (DESIGN.md §12.5); accessor reachability has no theorem.",
+        tech="Lean 4 proof (abstract interpreter over token kinds + simulation theorem, per-rule contracts by mutual structural recursion) "
+             "over a grammar table regenerated from the documentation + differential correspondence + Earley oracle",
+        ref="DESIGN.md §7 C04, §12.5"),
     "C06": dict(
         text="Lean theorems on the SymbolMap model for ARBITRARY operation logs (so also for malformed programs): "
              "cursor_is_target_or_reference (unconditional), goto_from_references_agrees (under RefStable + DisjointLocs), "
